@@ -129,17 +129,29 @@ Definition cfg_update (c : cfg) (x : istep) : cfg :=
   end.
 
 Record octx := { oc_i : N; oc_ghost : ghost; oc_first : ghost (* first path ever issued per handle value *);
+                 oc_gkind : list (N * kind) (* kind of the object at the handle's path when the handle was last issued *);
                  oc_cfg : cfg; oc_prev : list dump_entry; oc_step : istep }.
-Fixpoint owalk {A} (f : octx -> list A) (i : N) (g first : ghost) (c : cfg) (prev : list dump_entry) (l : list istep) : list A :=
+Definition d_get0 (d : list (path * (kind * N * N * N * N * sdata * list N * N))) (p : path) :=
+  match find (fun e => path_eqb p (fst e)) d with Some e => Some (snd e) | None => None end.
+Fixpoint owalk {A} (f : octx -> list A) (i : N) (g first : ghost) (gk : list (N * kind)) (c : cfg) (prev : list dump_entry) (l : list istep) : list A :=
   match l with
   | [] => []
   | x :: r =>
     let g' := ghost_update g x in
     let first' := fold_left (fun acc e => match g_get acc (fst e) with Some _ => acc | None => acc ++ [e] end) g' first in
-    f {| oc_i := i; oc_ghost := g; oc_first := first; oc_cfg := c; oc_prev := prev; oc_step := x |}
-      ++ owalk f (i + 1) g' first' (cfg_update c x) (i_dump x) r
+    (* handles whose binding is new or changed in this step get the kind their path has after the step *)
+    let gk' := fold_left (fun acc e =>
+                 let fresh := match g_get g (fst e) with Some p0 => negb (path_eqb p0 (snd e)) | None => true end in
+                 let reissued := match hs_req (i_step x), ob_fh (i_obs x) with _, Some fh => fst e =? fh | _, None => false end in
+                 if fresh || reissued then
+                   match d_get0 (i_dump x) (snd e) with
+                   | Some de => let '(k, _, _, _, _, _, _, _) := de in (fst e, k) :: filter (fun y => negb (fst y =? fst e)) acc
+                   | None => acc end
+                 else acc) g' gk in
+    f {| oc_i := i; oc_ghost := g; oc_first := first; oc_gkind := gk; oc_cfg := c; oc_prev := prev; oc_step := x |}
+      ++ owalk f (i + 1) g' first' gk' (cfg_update c x) (i_dump x) r
   end.
-Definition oracle {A} (f : octx -> list A) (c : case) : list A := owalk f 0 [] [] (c_cfg c) (c_init c) (c_steps c).
+Definition oracle {A} (f : octx -> list A) (c : case) : list A := owalk f 0 [] [] [] (c_cfg c) (c_init c) (c_steps c).
 Definition first_only {A} (l : list A) : list A := match l with [] => [] | x :: _ => [x] end.
 
 (* dump lookups *)
